@@ -71,6 +71,12 @@ chk("C04", "venum",
     "Trusted: go-jose for producing attack tokens; cryptographic unforgeability for multi-byte changes. Boundary cases (exp==now, real key with other algorithm, audience naming this server second) are observed only.",
     "DESIGN.md 3 C04")
 
+chk("C12", "venum",
+    "exhaustive enumeration of authorization x token-request products on the real OpenID handlers against a reference release model; released tokens verified independently against the served JWKS",
+    "Every combination of authorization (client with secret / secret-less, two users, challenge none/S256/no-method/plain/unknown/empty, nonce, audience) and token request (presenting client A/B/C/unknown/empty, secret right/wrong/absent/other client's/URL-escaped, verifier right/wrong/absent/the challenge itself, redirect same/other allowed/foreign/empty, code fresh/299 s/300 s/301 s/bit-flipped/foreign-key/session cookie/access token/ID token, credentials in Basic header/form/both disagreeing, POST/GET) is executed under the virtual clock; tokens released => the model allows it; the four canonical flows succeed; each released ID token has iss=this server, aud=[presenter], sub=logged-in user, echoed nonce, kid and signature matching a key served by /idp/oauth2/jwks, exp <= authorization+16h; userinfo (header and form) returns that user and refuses the ID token.",
+    "Trusted: go-jose verification. Quick tier runs the full token product for the principal authorizations and a stride-37 subset for variants (second user, no nonce, audience); thorough runs the full product.",
+    "DESIGN.md 3 C12")
+
 NOT_YET = {
 }
 
